@@ -417,7 +417,7 @@ func AwaitRequestID(x *memnet.Exchange, method string) string {
 	if x == nil {
 		return ""
 	}
-	vsched.Block("await server request "+method, reqProbe{x, method})
+	vsched.BlockObj("await server request "+method, reqProbe{x, method}, x.ObjID(), false)
 	return findRequestID(x, method)
 }
 
